@@ -555,20 +555,9 @@ pub fn explore(ex: &Ex) {
         let pp = party_pal();
         let sp = supp_pal();
         let ops = vec![DOp::PartyU(0), DOp::PartyU(1), DOp::PartyV(0), DOp::PartyV(1), DOp::SuppPub(0), DOp::SuppPub(1), DOp::Alg(-7), DOp::Alg(1), DOp::AddPriv(vec![]), DOp::AddPriv(vec![9])];
-        let render = |m: &RKdf| -> String {
-            // Debug of the private fields, spelled with the public component types, plus the
-            // reference encoding (compared with the independent parse of to_vec)
-            let alg: coset::Algorithm = subject::c_regp(&m.alg).unwrap();
-            format!(
-                "CoseKdfContext {{ algorithm_id: {:?}, party_u_info: {:?}, party_v_info: {:?}, supp_pub_info: {:?}, supp_priv_info: {:?} }} / {:?}",
-                alg,
-                subject::c_party(&m.u),
-                subject::c_party(&m.v),
-                subject::c_supp_pub(&m.supp_pub).unwrap(),
-                m.supp_priv,
-                encode(&RVal::Kdf(m.clone()))
-            )
-        };
+        // the fields are private: the built context is observed through an independent parse of its
+        // encoding, compared with the reference encoding of the model
+        let render = |m: &RKdf| -> String { format!("{:?}", encode(&RVal::Kdf(m.clone()))) };
         let spec = Spec {
             pid: ex.pid,
             name: "CoseKdfContextBuilder",
@@ -602,7 +591,9 @@ pub fn explore(ex: &Ex) {
                     }
                     let v = bld.build();
                     let enc = coset::CborSerializable::to_vec(v.clone()).ok().and_then(|bytes| crate::refcbor::read_exact(&bytes).ok()).map(|e| e.item());
-                    format!("{:?} / {}", v, enc.map(|i| format!("{:?}", i)).unwrap_or_else(|| "<no encoding>".into()))
+                    // Debug must not panic either
+                    let _ = format!("{:?}", v);
+                    enc.map(|i| format!("{:?}", i)).unwrap_or_else(|| "<no encoding>".into())
                 });
                 match r {
                     Ok(d) => Real::Built(d),
